@@ -30,7 +30,7 @@ def generate(rng, tier, rep):
             for _ in range(rng.choice([0, 1, 1, 2, 3])):
                 api = rng.choice(['threading', 'threading', '_thread'])
                 hold = rng.random() < 0.6
-                name = rng.choice(['vw-leak-%d', 'ign-%d', 'worker-%d']) % count
+                name = rng.choice(['vw-leak-%d', 'ign-%d', 'worker-%d', 'WORKER-%d', 'IGN-%d']) % count
                 rel = []
                 if parked and rng.random() < 0.5:
                     k = rng.choice(parked)
@@ -46,10 +46,15 @@ def generate(rng, tier, rep):
                 specs.append({'api': None, 'release': [k]})
             tests.append({'layer': None, 'threads': specs})
         opts = []
-        if rng.random() < 0.7:
-            opts += ['--ignore-new-thread', '^ign-']
-        if rng.random() < 0.2:
-            opts += ['--ignore-new-thread', 'worker-1$']
+        r = rng.random()
+        if r < 0.25:
+            # each pattern is matched on its own: an inline flag of one pattern must not leak into another
+            opts += ['--ignore-new-thread', '(?i)^IGN-', '--ignore-new-thread', 'worker-[0-9]$']
+        else:
+            if r < 0.8:
+                opts += ['--ignore-new-thread', '^ign-']
+            if rng.random() < 0.2:
+                opts += ['--ignore-new-thread', 'worker-1$']
         cases.append({'layers': [], 'tests': tests, 'options': opts})
         rep.count('tests=%d' % len(tests))
         rep.count('threads=%d' % count)
